@@ -3,6 +3,7 @@ pub mod common;
 pub mod c01;
 pub mod c02;
 pub mod c03;
+pub mod c04;
 pub mod seqs;
 pub mod c05;
 pub mod c06;
@@ -24,6 +25,7 @@ macro_rules! dispatch {
             "C02" => $f(&c02::C02, $($arg),*),
             "C17" => $f(&c17::C17, $($arg),*),
             "C03" => $f(&c03::C03, $($arg),*),
+            "C04" => $f(&c04::C04, $($arg),*),
             "C05" => $f(&c05::C05, $($arg),*),
             "C06" => $f(&c06::C06, $($arg),*),
             "C10" => $f(&c10::C10, $($arg),*),
